@@ -29,3 +29,34 @@ Lemma afterbot_nobot pre r : cntf botfr pre = 0 -> afterbot (pre ++ r) = afterbo
 Proof. induction pre as [|x pre IH]; cbn; [done|]. destruct (botfr x); [lia|]. intros H. by apply IH. Qed.
 Lemma afterbot_opfr st : afterbot st = [] -> botfr (default FD2 (head st)) = true -> cntf opfr st = 0.
 Proof. destruct st as [|x r]; cbn; [done|]. intros H Hb. rewrite Hb in H. subst r. by destruct x. Qed.
+
+Section Pres.
+  Context (T : ftables).
+  Lemma step_op s a s' : Inv_op s -> step T s a = Some s' -> Inv_op s'.
+  Proof.
+    intros HI Hstep. step_split Hstep Ea Est.
+    all: try discriminate Hstep.
+    all: injection Hstep as <-.
+    all: pop_cont_split.
+    all: pose proof (stacks_lookup _ _ _ Ea) as Hst; rewrite Est in Hst.
+    all: try match goal with k : kont |- _ => destruct k end.
+    all: eapply (op_update s _ a _ _ HI Hst); [solve_stacks|].
+    all: unfold opshape; cbn; intros [H1 H2]; try subst rest.
+    all: rewrite ?afterbot_nobot by (first [by apply cntf_opt_wake|by apply cntf_wake_frames]).
+    all: rewrite ?cntf_app, ?cntf_opt_wake, ?cntf_wake_frames by done; cbn.
+    all: try (split; [done|lia]).
+  Qed.
+End Pres.
+Lemma init_op scripts npool nev : Inv_op (init scripts npool nev).
+Proof.
+  intros c st Hc. unfold stacks, init in Hc; cbn in Hc. rewrite list_lookup_fmap in Hc.
+  destruct ((((fun sc => mk_actor [FTop sc]) <$> scripts) ++ replicate npool (mk_actor [FPIdle])) !! c) as [ac|] eqn:E; [|done].
+  cbn in Hc. injection Hc as <-. apply elem_of_list_lookup_2 in E. apply elem_of_app in E as [E|E].
+  - apply elem_of_list_fmap in E as (sc & -> & _). split; cbn; [done|lia].
+  - apply elem_of_replicate in E as [-> _]. split; cbn; [done|lia].
+Qed.
+(* uses *)
+Lemma op_top_only s a fr rest : Inv_op s -> stacks s !! a = Some (fr :: rest) -> opfr fr = true -> cntf opfr rest = 0.
+Proof. intros HI Ha Ho. destruct (HI a _ Ha) as [_ H]. cbn in H. rewrite Ho in H. lia. Qed.
+Lemma op_bot_alone s a fr rest : Inv_op s -> stacks s !! a = Some (fr :: rest) -> botfr fr = true -> rest = [].
+Proof. intros HI Ha Hb. destruct (HI a _ Ha) as [H _]. cbn in H. by rewrite Hb in H. Qed.
